@@ -87,6 +87,7 @@ type State struct {
 	expectPanic bool
 	ghost    map[string]Value
 	groups   map[string]bool
+	sharedMax, onceDepth, lockDepth int
 	accesses []Access // C17
 	thread   int
 	locks    []string
